@@ -127,6 +127,8 @@ enum Op1 {
     Timed,
     Adv6,
     Adv12,
+    /// the cleanup interval of `Timed` with "never discard" spelled as the largest duration
+    TimedNever,
     // ---- the secondary entry points (explored in a sub-alphabet of their own) ----
     /// tag_exists for an enabled-or-not tag, the other tag and an unknown one
     TagExists,
@@ -153,11 +155,12 @@ fn s1_ops() -> Vec<Op1> {
         Op1::Use(0), Op1::Use(1), Op1::Use(2), Op1::Use(3), Op1::EnableA, Op1::DisableA,
         Op1::AlwaysDiscard, Op1::NeverDiscard, Op1::DiscardAll, Op1::SerDeSame, Op1::SerDeFresh, Op1::Save, Op1::Load,
         Op1::LoadBad, Op1::LoadCut, Op1::Timed, Op1::Adv6, Op1::Adv12,
+        Op1::TimedNever,
         Op1::TagExists, Op1::Subset(0, true, false), Op1::Subset(0, false, true), Op1::Subset(3, true, false), Op1::Hidden, Op1::ReloadRes,
     ]
 }
 /// the operations of the "all operations" sweep (the secondary entry points come after them)
-const S1_PRIMARY_OPS: usize = 27;
+const S1_PRIMARY_OPS: usize = 27; // (`TimedNever` and the secondary entry points follow)
 
 fn is_query1(o: &Op1) -> bool {
     matches!(o, Op1::Check(_) | Op1::Csp | Op1::Cosmetic | Op1::TagExists | Op1::Subset(..) | Op1::Hidden)
@@ -221,7 +224,7 @@ fn s1_prepare() -> S1 {
 }
 
 fn s1_run(s: &S1, seq: &[usize], l: &mut Local) -> Option<(usize, String, String)> {
-    let timed = seq.iter().any(|&oi| matches!(s.ops[oi], Op1::Timed | Op1::Adv6 | Op1::Adv12));
+    let timed = seq.iter().any(|&oi| matches!(s.ops[oi], Op1::Timed | Op1::TimedNever | Op1::Adv6 | Op1::Adv12));
     adblock::verif_hooks::set_thread_virtual_clock(timed);
     let r = s1_run_inner(s, seq, l);
     adblock::verif_hooks::set_thread_virtual_clock(false);
@@ -284,6 +287,7 @@ fn s1_run_inner(s: &S1, seq: &[usize], l: &mut Local) -> Option<(usize, String, 
                 }
             }
             Op1::Timed => e.set_regex_discard_policy(RegexManagerDiscardPolicy { cleanup_interval: Duration::from_millis(10), discard_unused_time: Duration::from_millis(15) }),
+            Op1::TimedNever => e.set_regex_discard_policy(RegexManagerDiscardPolicy { cleanup_interval: Duration::from_millis(10), discard_unused_time: Duration::MAX }),
             Op1::Adv6 => adblock::verif_hooks::advance_thread_clock(Duration::from_millis(6)),
             Op1::Adv12 => adblock::verif_hooks::advance_thread_clock(Duration::from_millis(12)),
             Op1::ReloadRes => e.use_resources(resources()),
@@ -954,12 +958,17 @@ fn check(ctx: &Ctx) -> i32 {
         let want = [Check(0), Check(1), Check(4), Use(0), Use(1), Timed, Adv6, Adv12, DiscardAll, NeverDiscard];
         (0..p.s1.ops.len()).filter(|&i| want.contains(&p.s1.ops[i])).collect()
     };
+    let s1_timed_never: Vec<usize> = {
+        use Op1::*;
+        let want = [Check(0), Check(4), Use(1), Timed, TimedNever, Adv6, Adv12, DiscardAll];
+        (0..p.s1.ops.len()).filter(|&i| want.contains(&p.s1.ops[i])).collect()
+    };
     let s1_secondary: Vec<usize> = {
         use Op1::*;
         let want = [Check(0), Check(3), Cosmetic, TagExists, Subset(0, true, false), Subset(0, false, true), Subset(3, true, false), Hidden, Use(1), Use(3), EnableA, DisableA, SerDeSame, ReloadRes];
         (0..p.s1.ops.len()).filter(|&i| want.contains(&p.s1.ops[i])).collect()
     };
-    assert!(matches!(p.s1.ops[S1_PRIMARY_OPS - 1], Op1::Adv12) && matches!(p.s1.ops[S1_PRIMARY_OPS], Op1::TagExists));
+    assert!(matches!(p.s1.ops[S1_PRIMARY_OPS - 1], Op1::Adv12) && matches!(p.s1.ops[S1_PRIMARY_OPS], Op1::TimedNever));
     let all = |n: usize| -> Vec<usize> { (0..n).collect() };
     let sweeps: Vec<(usize, &str, Vec<usize>, usize)> = vec![
         (1, "all primary operations", all(S1_PRIMARY_OPS), depths[0] - 1),
@@ -968,6 +977,7 @@ fn check(ctx: &Ctx) -> i32 {
         (1, "tag switches around save / load", s1_saveload, depths[0]),
         (1, "rejected loads", s1_failed_loads, depths[0]),
         (1, "cleanup timer on the virtual clock", s1_timed, depths[0] + 1),
+        (1, "cleanup timer with a never-discard policy", s1_timed_never, depths[0]),
         (2, "all operations", all(p.s2.ops.len()), depths[1]),
         (3, "all operations", all(p.s3.ops.len()), depths[2]),
         (4, "all operations", all(p.s2.ops.len()), depths[1]),
